@@ -325,10 +325,20 @@ def run_case(ctx, kind_, idx):
                 a = arr(rng, 2, 40).astype(float)
                 n = int(rng.integers(1, 9))
                 src = a.copy()
+                layout = ["contiguous", "every_other", "table_column", "reversed"][int(rng.integers(0, 4))]
+                if layout == "every_other":         # the array the caller wraps is a view of the caller's own data
+                    src = np.zeros(2 * len(a))[::2]
+                elif layout == "table_column":
+                    src = np.zeros((len(a), 3))[:, 1]
+                elif layout == "reversed":
+                    src = np.zeros(len(a))[::-1]
+                src[:] = a
                 ia = IntervalArray(src, n)            # wraps without copying: the caller keeps write access
+                extended = False                      # extensions build a new, longer array (by design)
                 sh = [float(v) for v in a]
                 steps = []
-                info.update({"len": len(a), "n": n, "steps": steps})
+                info.update({"len": len(a), "n": n, "steps": steps, "wrapped_array_layout": layout})
+                ctx.count("interval_history:wrapped_%s" % layout)
                 for _ in range(int(rng.integers(3, 9))):
                     op = ["view", "closed", "write", "write_flat", "extend_lin", "extend_const", "read", "len",
                           "write_via_array_property", "write_via_wrapped_ndarray", "write_via_second_view"][int(rng.integers(0, 11))]
@@ -348,18 +358,22 @@ def run_case(ctx, kind_, idx):
                         v = float(rng.normal(0, 5))
                         ia[i, j] = v
                         sh[flat] = v
+                        if not extended and float(src[flat]) != v:
+                            return fail("write_did_not_reach_the_wrapped_array", flat=flat, layout=layout)
                     elif op == "write_flat":
                         flat = int(rng.integers(0, len(sh)))
                         v = float(rng.normal(0, 5))
                         ia[flat] = v
                         sh[flat] = v
+                        if not extended and float(src[flat]) != v:
+                            return fail("write_did_not_reach_the_wrapped_array", flat=flat, layout=layout)
                     elif op.startswith("write_via"):
                         flat = int(rng.integers(0, len(sh)))
                         v = float(rng.normal(0, 5))
                         if op == "write_via_array_property":
                             ia.array[flat] = v
                         elif op == "write_via_wrapped_ndarray":
-                            if ia.array is not src:
+                            if extended:
                                 continue
                             src[flat] = v
                         else:
@@ -369,6 +383,7 @@ def run_case(ctx, kind_, idx):
                         if len(sh) < n + 1 or len(sh) > 200:
                             continue
                         d = ["both", "left", "right"][int(rng.integers(0, 3))]
+                        extended = True
                         if op == "extend_lin":
                             ia.extend_linspace(direction=d)
                             sh = H.extend_linspace(sh, n, d)
